@@ -17,6 +17,7 @@ Inductive oev :=
 
 Inductive c09case :=
 | CTrace (tr : list oev)
+| CSeq (tr : list oev)                         (* a sequential scenario: the log is also replayed step by step *)
 | CBack (sent taken : Z).
 
 Definition n (z : Z) : nat := Z.to_nat z.
@@ -54,5 +55,6 @@ Fixpoint conv (all : list oev) (tr : list oev) : option (list ev) :=
 Definition check (c : c09case) : bool :=
   match c with
   | CTrace tr => match conv tr tr with Some tr' => accepts src_cfg tr' | None => false end
+  | CSeq tr => match conv tr tr with Some tr' => accepts src_cfg tr' && replay src_cfg init 0 tr' | None => false end
   | CBack sent taken => Z.of_nat (back_model src_cfg (n sent)) =? taken
   end.
